@@ -102,6 +102,10 @@ mutant("C01-brace-dropped", "src/rtflite/row.py",
        'f"{formatted_text}}}\\\\par}}"', 'f"{formatted_text}\\\\par}}"', ["C01"])
 
 
+mutant("C14-hash-order-colortbl", "src/rtflite/services/color_service.py",
+       "sorted_colors = sorted(validated_colors, key=lambda x: self._name_to_type[x])",
+       "sorted_colors = list(dict.fromkeys(set(validated_colors)))", ["C14"])
+
 def run(cmd, **kw):
     return subprocess.run(cmd, shell=True, stdout=subprocess.PIPE, stderr=subprocess.STDOUT, text=True, **kw)
 
